@@ -178,6 +178,30 @@ pub fn any_bool() -> bool {
 #[cfg(not(kani))]
 pub fn assume(_c: bool) {}
 
+/// Straight-line repetition of `$body` for `$r` = 0, 1, .. while `$r < $n` (at most 8 times).
+/// Harness loops over rounds are written with this instead of `while` so that the harness-wide
+/// `#[kani::unwind]` bound can be as small as the number of children + 1: CBMC cannot
+/// constant-propagate the length of a `Vec` that went through `MaybeUninit` (FutureVec,
+/// OutputVec), so every loop over such a `Vec` is explored up to the unwind bound.
+#[macro_export]
+macro_rules! unroll_rounds {
+    ($r:ident, $n:expr, $body:block) => {
+        $crate::unroll_rounds!(@one $r, 0usize, $n, $body);
+        $crate::unroll_rounds!(@one $r, 1usize, $n, $body);
+        $crate::unroll_rounds!(@one $r, 2usize, $n, $body);
+        $crate::unroll_rounds!(@one $r, 3usize, $n, $body);
+        $crate::unroll_rounds!(@one $r, 4usize, $n, $body);
+        $crate::unroll_rounds!(@one $r, 5usize, $n, $body);
+        $crate::unroll_rounds!(@one $r, 6usize, $n, $body);
+        $crate::unroll_rounds!(@one $r, 7usize, $n, $body);
+    };
+    (@one $r:ident, $k:expr, $n:expr, $body:block) => {
+        #[allow(unused_variables, unused_mut)]
+        let $r: usize = $k;
+        if $r < $n $body
+    };
+}
+
 #[macro_export]
 macro_rules! cover {
     ($c:expr, $m:expr) => {
@@ -643,7 +667,8 @@ impl Stream for Strm {
 pub fn assert_all_dropped() {
     let w = w();
     let mut i = 0;
-    while i < M {
+    // children are created with ids below `n` only
+    while i < w.n {
         assert!(
             w.child_state[i] == 0 || w.child_state[i] == 2,
             "C02: child leaked (not dropped with its combinator)"
@@ -657,7 +682,7 @@ pub fn assert_all_dropped() {
 pub fn assert_children_dropped() {
     let w = w();
     let mut i = 0;
-    while i < M {
+    while i < w.n {
         assert!(
             w.child_state[i] == 0 || w.child_state[i] == 2,
             "C02: child outlives the combinator that owned it"
